@@ -682,6 +682,83 @@ Definition json_from_str (parse_f64 : string -> option Z) (fuel : nat) (s : stri
 Definition json_from_str_text (parse_f64 : string -> option Z) (s : string) : jres :=
   json_parse_text parse_f64 (dedent s).
 
+(** * Composition with layer 1: the typed helpers of layout21utils at the level of the models *)
+
+(** [SerializationFormat::Json.to_string(&v)] for a value [v] of the Rust type of shape [t] *)
+Definition json_to_string (fmt_f64 : Z -> string) (t : ty) (v : val) : string := json_print fmt_f64 (ser t v).
+(** [SerializationFormat::Json.from_str::<T>(s)]: dedent, parse, derive(Deserialize) *)
+Definition json_from_str_ty (parse_f64 : string -> option Z) (t : ty) (s : string) : option val :=
+  match json_from_str_text parse_f64 s with JOk sv => de t sv | _ => None end.
+(** [SerializationFormat::Json.open::<T>(file)] on a file holding [s]: from_reader, no dedent *)
+Definition json_open_ty (parse_f64 : string -> option Z) (t : ty) (s : string) : option val :=
+  match json_parse_text parse_f64 s with JOk sv => de t sv | _ => None end.
+
+(** what JSON text can carry of a value: every string is UTF-8 (a Rust [String] always is) and every double is
+    finite (serde_json writes NaN and the infinities as [null]) *)
+Fixpoint val_textb (v : val) : bool :=
+  match v with
+  | VS s => utf8_validb s
+  | VF b => f64_finiteb b
+  | VSome x => val_textb x
+  | VList l => forallb val_textb l
+  | VVariant _ (Some x) => val_textb x
+  | _ => true
+  end.
+(** the doubles that occur in a value *)
+Fixpoint val_floats (v : val) : list Z :=
+  match v with
+  | VF b => [b]
+  | VSome x => val_floats x
+  | VList l => flat_map val_floats l
+  | VVariant _ (Some x) => val_floats x
+  | _ => []
+  end.
+
+(** what the text layer needs of a shape (decidable, re-checked on the generated shapes on every run): integer
+    types within i64/u64, field and variant names UTF-8 *)
+Fixpoint ty_textb (t : ty) : bool :=
+  match t with
+  | TInt lo hi => ((- 9223372036854775808 <=? lo) && (hi <? 18446744073709551616))%Z
+  | TOption t' | TVec t' | TArray _ t' | TNewtype t' => ty_textb t'
+  | TTuple ts => forallb ty_textb ts
+  | TStruct fs =>
+      (fix go (fs : list field) : bool :=
+         match fs with
+         | [] => true
+         | Field sn _ _ _ t' :: fs' => utf8_validb sn && ty_textb t' && go fs'
+         end) fs
+  | TEnum vs =>
+      (fix go (vs : list (string * option ty)) : bool :=
+         match vs with
+         | [] => true
+         | (n, None) :: vs' => utf8_validb n && go vs'
+         | (n, Some t') :: vs' => utf8_validb n && ty_textb t' && go vs'
+         end) vs
+  | _ => true
+  end.
+(** an upper bound of the container nesting of any serialised value of a shape *)
+Fixpoint ty_depth (t : ty) : nat :=
+  match t with
+  | TOption t' | TNewtype t' => ty_depth t'
+  | TVec t' | TArray _ t' => S (ty_depth t')
+  | TTuple ts => S (fold_right (fun t' a => Nat.max (ty_depth t') a) O ts)
+  | TStruct fs =>
+      S ((fix go (fs : list field) : nat :=
+            match fs with
+            | [] => O
+            | Field _ _ _ _ t' :: fs' => Nat.max (ty_depth t') (go fs')
+            end) fs)
+  | TEnum vs =>
+      S ((fix go (vs : list (string * option ty)) : nat :=
+            match vs with
+            | [] => O
+            | (_, None) :: vs' => go vs'
+            | (_, Some t') :: vs' => Nat.max (ty_depth t') (go vs')
+            end) vs)
+  | _ => O
+  end.
+Definition ty_json_okb (t : ty) : bool := ty_textb t && (ty_depth t <? recursion_limit)%nat.
+
 (** * A line-structure automaton (used to state what dedent needs of a text): every line is some
     spaces followed by a printable ASCII byte, there is no carriage return, and the text does not end in
     a line feed *)
